@@ -3,29 +3,29 @@
 # Confirms a seeded mutant in its scratch worktree against /repo's current HEAD:
 #   suite passes with the patch; demo fails with it and passes without. Stores it under /verif/seeded/<prop>-<X>/.
 export GOFLAGS=-mod=mod GOPROXY=off GOSUMDB=off GOTOOLCHAIN=local
-P=$1; X=$2; SRC=/tmp/seedout/$P/$X; PATCH=${3:-$SRC/patch.diff}
-WT=/tmp/wt/$P; OUT=/verif/seeded/$P-$X
+P=$1; X=$2; BASE=${SEEDSRC:-/tmp/seedout}; SRC=$BASE/$P/$X; PATCH=${3:-$SRC/patch.diff}; NAME=${4:-$X}
+WT=/tmp/wt/$P; OUT=/verif/seeded/$P-$NAME
 HEAD=$(git -C /repo rev-parse HEAD)
 cd $WT || exit 2
 git checkout -q -- . ; git clean -fdq; git checkout -q --detach $HEAD || exit 2
-git apply --check "$PATCH" 2>/dev/null || { echo "$P-$X: PATCH-DOES-NOT-APPLY"; exit 3; }
+git apply --check "$PATCH" 2>/dev/null || { echo "$P-$NAME: PATCH-DOES-NOT-APPLY"; exit 3; }
 # demo without the change
 cp $SRC/seed_demo_test.go . 
-go test -vet=off -count=1 -run 'TestSeedDemo' . > /tmp/seedout/$P/$X/demo_clean.log 2>&1; RC_CLEAN=$?
+go test -vet=off -count=1 -run 'TestSeedDemo' . > $SRC/demo_clean.log 2>&1; RC_CLEAN=$?
 git apply "$PATCH"
-go build ./... || { echo "$P-$X: DOES-NOT-BUILD"; git checkout -q -- .; rm -f seed_demo_test.go; exit 4; }
-go test -vet=off -count=1 -run 'TestSeedDemo' . > /tmp/seedout/$P/$X/demo_mut.log 2>&1; RC_MUT=$?
+go build ./... || { echo "$P-$NAME: DOES-NOT-BUILD"; git checkout -q -- .; rm -f seed_demo_test.go; exit 4; }
+go test -vet=off -count=1 -run 'TestSeedDemo' . > $SRC/demo_mut.log 2>&1; RC_MUT=$?
 rm -f seed_demo_test.go
-go test -vet=off -count=1 ./... > /tmp/seedout/$P/$X/suite_mut.log 2>&1; RC_SUITE=$?
+go test -vet=off -count=1 ./... > $SRC/suite_mut.log 2>&1; RC_SUITE=$?
 for try in 1 2 3; do
   # the repository's proxy/TLS dial tests flake under load on the pristine tree as well: retry
-  if [ $RC_SUITE -ne 0 ]; then sleep 2; go test -vet=off -count=1 ./... > /tmp/seedout/$P/$X/suite_mut.log 2>&1; RC_SUITE=$?; fi
+  if [ $RC_SUITE -ne 0 ]; then sleep 2; go test -vet=off -count=1 ./... > $SRC/suite_mut.log 2>&1; RC_SUITE=$?; fi
 done
 git checkout -q -- .; git clean -fdq
-echo "$P-$X: demo_clean=$RC_CLEAN demo_mut=$RC_MUT suite_mut=$RC_SUITE"
+echo "$P-$NAME: demo_clean=$RC_CLEAN demo_mut=$RC_MUT suite_mut=$RC_SUITE"
 if [ $RC_CLEAN -eq 0 ] && [ $RC_MUT -ne 0 ] && [ $RC_SUITE -eq 0 ]; then
   mkdir -p $OUT; cp "$PATCH" $OUT/patch.diff; cp $SRC/seed_demo_test.go $OUT/; cp $SRC/NOTES.md $OUT/ 2>/dev/null
-  echo "$P-$X: CONFIRMED"
+  echo "$P-$NAME: CONFIRMED"
 else
-  echo "$P-$X: NOT-CONFIRMED"
+  echo "$P-$NAME: NOT-CONFIRMED"
 fi
